@@ -127,7 +127,9 @@ ToRef(res) == IF res.k = "avg" THEN Norm(res.n, res.d * Scale) ELSE FromSV(res)
 RECURSIVE WrapCode(_, _, _)
 WrapCode(r, exp, i) ==
   IF "wraps" \notin DOMAIN cfg \/ i > Len(cfg.wraps) THEN ""
-  ELSE LET w == cfg.wraps[i]  x == Arith(w.op, ToRef(exp[w.a]), ToRef(exp[w.b])) IN
+  \* (w.op = "case01": CASE WHEN <call a> THEN 1 ELSE 0 END over a boolean call - 1 where the call is true, 0 where it is false or NULL)
+  ELSE LET w == cfg.wraps[i]
+           x == IF w.op = "case01" THEN (IF IsTrue(exp[w.a]) THEN Norm(1, 1) ELSE Norm(0, 1)) ELSE Arith(w.op, ToRef(exp[w.a]), ToRef(exp[w.b])) IN
        IF Bad(x) THEN WrapCode(r, exp, i + 1)
        ELSE IF w.al \notin DOMAIN r THEN (IF x.k = "null" THEN WrapCode(r, exp, i + 1) ELSE "missing_column_" \o w.al)
        ELSE IF ~Matches(r[w.al], x) THEN "wrong_wrapper_" \o w.al
